@@ -501,6 +501,8 @@ func runC04LRU(c *Ctx, cs *C04Case, v *Verdict) *Verdict {
 	var res *simrt.Result
 	var probe cacheProbe
 	var cache *updog.LRUCache
+	var finalBytes uint64
+	var cGet, cPut, cHit, cMiss int64
 	c.Bubble(func() {
 		cache = updog.NewLRUCache(cs.LRUBytes, updog.WithCacheMetrics(&updog.CacheMetrics{
 			CacheHit: &probe.hit, CacheMiss: &probe.miss, GetCall: &probe.get, PutCall: &probe.put}))
@@ -525,6 +527,18 @@ func runC04LRU(c *Ctx, cs *C04Case, v *Verdict) *Verdict {
 			}
 		}
 		res = simrt.Run(cs.Sched.Config(c), fns)
+		if res.Hang || res.Deadlock {
+			return
+		}
+		// counters are read before the probing Gets below add to them
+		cGet, cPut, cHit, cMiss = probe.get.Load(), probe.put.Load(), probe.hit.Load(), probe.miss.Load()
+		// byte bound at final quiescence — probed inside the bubble: whatever the cache uses for
+		// synchronisation (e.g. a channel) belongs to the bubble it was created in
+		for k := uint64(1); k <= 8; k++ {
+			if bm, ok := cache.Get(k); ok {
+				finalBytes += bm.GetSizeInBytes()
+			}
+		}
 	})
 	if res == nil {
 		return v.Harness("simulation did not run")
@@ -597,18 +611,11 @@ func runC04LRU(c *Ctx, cs *C04Case, v *Verdict) *Verdict {
 		v.Count("porcupine_timeouts", 1)
 	}
 	v.Count("porcupine_histories", 1)
-	if g := probe.get.Load(); g != int64(nget) || probe.put.Load() != int64(nput) || probe.hit.Load()+probe.miss.Load() != g {
-		return v.Violate("counters", "counters get=%d put=%d hit=%d miss=%d, events get=%d put=%d", g, probe.put.Load(), probe.hit.Load(), probe.miss.Load(), nget, nput)
+	if cGet != int64(nget) || cPut != int64(nput) || cHit+cMiss != cGet {
+		return v.Violate("counters", "counters get=%d put=%d hit=%d miss=%d, events get=%d put=%d", cGet, cPut, cHit, cMiss, nget, nput)
 	}
-	// byte bound at final quiescence
-	var total uint64
-	for k := uint64(1); k <= 8; k++ {
-		if bm, ok := cache.Get(k); ok {
-			total += bm.GetSizeInBytes()
-		}
-	}
-	if total > cs.LRUBytes {
-		return v.Violate("byte-bound", "retrievable bitmaps hold %d bytes, capacity %d", total, cs.LRUBytes)
+	if finalBytes > cs.LRUBytes {
+		return v.Violate("byte-bound", "retrievable bitmaps hold %d bytes, capacity %d", finalBytes, cs.LRUBytes)
 	}
 	return v
 }
